@@ -175,7 +175,7 @@ def rule5_chain(ctx, fl):
                                                                    'myth_get_current_env'), flavour=fl)
     f = ctx.need_fn(v, 'myth_wake_many_from_queue')
     lib.chain_discipline(ctx, 'C07.5', f, ('myth_sleep_queue_deq_th', 'myth_sleep_queue_deq'), 'wake_many_from_queue')
-    ctx.floor('C07.5', 6)
+    ctx.floor('C07.5', 7)
 
 
 def rule_init_complete(ctx, fl):
@@ -202,6 +202,9 @@ def run(ctx):
 
 SYNC = 'src/myth_sync_func.h'
 MUTANTS = [
+    {'name': 'wake-many releases one element more than it collected (sweep M0633)', 'expect': 'C07.5',
+     'edits': [(SYNC, "  myth_thread_t to_wake = to_wake_head;\n  for (i = 0; i < n; i++) {\n    assert(to_wake);\n    myth_thread_t next = to_wake->next;\n    myth_queue_push(&env->runnable_q, to_wake);",
+                "  myth_thread_t to_wake = to_wake_head;\n  for (i = 0; i <= n; i++) {\n    assert(to_wake);\n    myth_thread_t next = to_wake->next;\n    myth_queue_push(&env->runnable_q, to_wake);")]},
     {'name': 'wake chain tail advances only for the first waiter (seed2 C07/m2)', 'expect': 'C07.5',
      'edits': [(SYNC, "      to_wake_head = to_wake;\n    }\n    to_wake_tail = to_wake;\n  }\n  /* do any action after dequeueing from the sleep queue\n     but before really putting it in the run queue.\n     (for mutex,",
                 "      to_wake_head = to_wake;\n      to_wake_tail = to_wake;\n    }\n  }\n  /* do any action after dequeueing from the sleep queue\n     but before really putting it in the run queue.\n     (for mutex,")]},
